@@ -571,4 +571,55 @@ theorem recvL_sound (L : Nat) (s m r : Bytes) (h : recvL L s = (.msg m, r)) :
         · simp; omega
 
 
+theorem putBe32_be32 (a b c d : UInt8) : putBe32 (be32 a b c d) = [a, b, c, d] := by
+  have ha := a.toNat_lt; have hb := b.toNat_lt; have hc := c.toNat_lt; have hd := d.toNat_lt
+  simp only [putBe32, be32]
+  have e1 : (((a.toNat * 256 + b.toNat) * 256 + c.toNat) * 256 + d.toNat) / 16777216 = a.toNat := by omega
+  have e2 : (((a.toNat * 256 + b.toNat) * 256 + c.toNat) * 256 + d.toNat) / 65536 = a.toNat * 256 + b.toNat := by omega
+  have e3 : (((a.toNat * 256 + b.toNat) * 256 + c.toNat) * 256 + d.toNat) / 256 = (a.toNat * 256 + b.toNat) * 256 + c.toNat := by omega
+  rw [e1, e2, e3]
+  have f : ∀ (x : Nat) (y : UInt8), UInt8.ofNat (x * 256 + y.toNat) = y := by
+    intro x y
+    apply UInt8.toNat_inj.mp
+    simp only [UInt8.toNat_ofNat']
+    have := y.toNat_lt
+    omega
+  simp [f, UInt8.ofNat_toNat]
+
+/-- a frame as a client may write it, with any flag byte -/
+def frameF (f : UInt8) (m : Bytes) : Bytes := f :: (putBe32 m.length ++ m)
+
+def msgsOf : List RecvRes → List Bytes
+  | [] => []
+  | .msg m :: r => m :: msgsOf r
+  | _ :: r => msgsOf r
+
+theorem recvTraceL_sound (L n : Nat) (s : Bytes) :
+    ∃ fl : List UInt8, fl.length = (msgsOf (recvTraceL L n s)).length ∧
+      ∃ rest, s = (List.zipWith frameF fl (msgsOf (recvTraceL L n s))).flatten ++ rest ∧
+      ∀ m ∈ msgsOf (recvTraceL L n s), m.length ≤ L := by
+  induction n generalizing s with
+  | zero => exact ⟨[], by simp [recvTraceL, msgsOf], s, by simp [recvTraceL, msgsOf], by simp [recvTraceL, msgsOf]⟩
+  | succ n ih =>
+    unfold recvTraceL
+    cases h : recvL L s with
+    | mk x r =>
+      cases x with
+      | msg m =>
+        obtain ⟨f, a, b, c, d, hs, hlen, hL⟩ := recvL_sound L s m r h
+        obtain ⟨fl, hfl, rest, hr, hall⟩ := ih r
+        refine ⟨f :: fl, by simp [msgsOf, hfl], rest, ?_, ?_⟩
+        · simp only [msgsOf, List.zipWith_cons_cons, List.flatten_cons, frameF]
+          rw [hs, ← hlen, putBe32_be32]
+          simp only [List.cons_append, List.nil_append, List.append_assoc]
+          rw [← hr]
+        · intro m' hm'
+          simp only [msgsOf, List.mem_cons] at hm'
+          rcases hm' with rfl | hm'
+          · exact hL
+          · exact hall m' hm'
+      | eof => exact ⟨[], by simp [msgsOf], s, by simp [msgsOf], by simp [msgsOf]⟩
+      | err e => exact ⟨[], by simp [msgsOf], s, by simp [msgsOf], by simp [msgsOf]⟩
+
+
 end GB.C08
